@@ -63,9 +63,56 @@ JUST = {"ljust": (True, False, P.LJUST_PREDICATE), "rjust": (False, False, P.RJU
         "extend_crop": (True, True, P.EXTEND_CROP_PREDICATE)}
 _parsers = {}
 
+# ---- cross-grammar stream: grammars with IDENTICAL nonterminal names and different productions, evaluated
+# alternately in this ONE process (a parser cached per name set / start symbol would answer with the wrong grammar)
+XGRAMMARS = [
+    {"<start>": ["<xs>"], "<xs>": ["<x><xs>", "<x>"], "<x>": ["<u>"], "<u>": ["a", "b", "0"]},       # right-recursive
+    {"<start>": ["<xs>"], "<xs>": ["<xs><x>", "<x>"], "<x>": ["<u>"], "<u>": ["a", "b", "0"]},       # left-recursive
+    {"<start>": ["<xs>"], "<xs>": ["<x><xs>", "<x>"], "<x>": ["<u>", "0"], "<u>": ["a", "b"]},       # other unit level / terminals
+]
+assert all(set(g) == set(XGRAMMARS[0]) for g in XGRAMMARS)
+XLANGS = {"<xs>": ([""], "ab0", 1, ""), "<x>": ([""], "ab0", 1, "")}
+XGRAPHS = [gg.GrammarGraph.from_grammar(g) for g in XGRAMMARS]
+XCANON = [canonical(g) for g in XGRAMMARS]
+_CTX = [GRAPH, LANGS]          # graph / language description of the call being observed or judged
+_xparsers = {}
+
+
+def xparse(gi, nt, s):
+    """argument tree built with a parser of exactly grammar XGRAMMARS[gi] (own parser, not mk_parser)"""
+    if (gi, nt) not in _xparsers:
+        g = dict(XGRAMMARS[gi]); g["<start>"] = [nt]
+        _xparsers[(gi, nt)] = EarleyParser(g)
+    return T.from_parse_tree(next(iter(_xparsers[(gi, nt)].parse(s)))).get_subtree((0,))
+
+
+def gen_cross(rng, thorough):
+    """round-robin over the grammars: consecutive calls use the same nonterminal with another grammar"""
+    strs = ["a", "ab", "0a", "ab0", "b0ab", "000"] + (["abab0", "a0b0a0"] if thorough else [])
+    per_g = []
+    for gi in range(len(XGRAMMARS)):
+        calls = []
+        for s_ in strs:
+            t = xparse(gi, "<xs>", s_)
+            n = len(s_)
+            for w in range(0, n + 3):
+                if w == n:
+                    continue
+                calls.append((gi, "crop", [t, T(str(w), ())]))
+                calls.append((gi, "ljust_crop", [t, w, rng.choice("0ab")]))
+                calls.append((gi, "rjust_crop", [t, T(str(w), ()), rng.choice("0ab")]))
+                if w > n:
+                    calls.append((gi, rng.choice(["ljust", "rjust"]), [t, w, rng.choice("0ab")]))
+            if len(set(s_)) == 1:
+                calls.append((gi, "extend_crop", [t, n + 2]))
+        per_g.append(calls)
+    for row in zip(*per_g):          # same position in every list = same request, different grammar
+        for c in row:
+            yield c
+
 
 def in_lang(nt, s):
-    ps, cs, mn, suf = LANGS[nt]
+    ps, cs, mn, suf = _CTX[1][nt]
     for p in ps:
         if s.startswith(p):
             r = s[len(p):]
@@ -176,7 +223,7 @@ def pred_of(kind):
 def observe(kind, args):
     """canonical outcome of SemanticPredicate.evaluate"""
     try:
-        r = pred_of(kind).evaluate(GRAPH, *args).result
+        r = pred_of(kind).evaluate(_CTX[0], *args).result
     except Exception as e:  # the outcome is the observable
         return ("raise", lib.exn_name(e))
     if r is None:
@@ -232,8 +279,8 @@ def closed(a):
 
 
 def valid_repl(v, nt):
-    return (isinstance(v, T) and v.value == nt and v.is_complete() and GRAPH.tree_is_valid(v)
-            and (nt not in LANGS or in_lang(nt, str(v))))
+    return (isinstance(v, T) and v.value == nt and v.is_complete() and _CTX[0].tree_is_valid(v)
+            and (nt not in _CTX[1] or in_lang(nt, str(v))))
 
 
 def e2e_small(kind, args, o):
@@ -718,6 +765,49 @@ def run(run):
             run.violation({"kind": "correspondence-not-evaluable", "obligation": "SemPredsGuard.v request_guard cases",
                            "error": str(e)[-2000:]}, found_input=False)
 
+    # ---- cross-grammar stream: same nonterminal names, different productions, alternating in this process;
+    # every replacement is judged by wf_treeb against the grammar OF THAT CALL and compared as an exact tree with
+    # the Earley model run on that grammar ----
+    xmeta, xcases = [], []
+    for gi, kind, args in gen_cross(rng, thorough):
+        _CTX[:] = [XGRAPHS[gi], XLANGS]
+        try:
+            o = observe(kind, args)
+            v = spec_verdict(kind, args, o)
+        finally:
+            _CTX[:] = [GRAPH, LANGS]
+        xmeta.append((gi, kind, args, o, v))
+        xcases.append(f"({g_nat(gi)}, ({g_call(kind, args)}, {g_iout(o)}))")
+        run.count(("x", gi, kind, json.dumps([j_arg(a) for a in args], sort_keys=True, default=str)), True)
+        hk = f"cross:{kind}:{o[0] if o[0] != 'raise' else o[1]}"
+        hist[hk] = hist.get(hk, 0) + 1
+    run.cov["outcome_histogram"] = dict(sorted(hist.items()))
+    run.cov["cross_grammar_cases"] = {"grammars": len(XGRAMMARS), "cases": len(xcases),
+                                      "replacements": sum(1 for m in xmeta if m[3][0] == "assign")}
+    xlangs = "[" + "; ".join(f"({g_str(nt)}, ({lib.g_list(ps, g_str)}, {g_str(cs)}, {g_nat(mn)}, {g_str(suf)}))"
+                             for nt, (ps, cs, mn, suf) in XLANGS.items()) + "]"
+    xdefs = (TREE_PRELUDE + label_defs()
+             + "".join(f"Definition {nm} := {lit}.\n" for nm, lit, _ in _TREE_DEFS.values())
+             + "Definition XGS : list grammar := [" + "; ".join(g_grammar(c) for c in XCANON) + "].\n"
+             + f"Definition XLANGS := {xlangs}.\nDefinition FX := true.\n"
+             + "Definition XG (i : nat) := nth i XGS [].\n"
+             + "Definition XFUEL (i : nat) := fuel_bound (sct (XG i)) 14 + 40.\n")
+    ok_x = ("fun c : nat * (call * iout) => let g := XG (fst c) in let cl := fst (snd c) in let io := snd (snd c) in "
+            "agrees g (charset_lang XLANGS) (pre_eval FX cl) io "
+            "&& agrees_full (sem_eval_earley false false (XFUEL (fst c)) g FX cl) io")
+    try:
+        badx, dtx = lib.coq_mismatches("c20x", "SemPreds SemPredsParser Earley EarleyFuel", ok_x, xcases, shard=200,
+                                       extra_defs=xdefs)
+        run.cov["coq_seconds_cross"] = round(dtx, 1)
+        for i in badx:
+            gi, kind, args, o, v = xmeta[i]
+            disagreements.append({"pred": kind, "grammar": XGRAMMARS[gi], "args": [j_arg(a) for a in args],
+                                  "impl": j_out(o), "model": "", "spec": v, "stage": "cross-grammar",
+                                  "_raw": (kind, args, o)})
+    except RuntimeError as e:
+        run.violation({"kind": "correspondence-not-evaluable", "obligation": "SemPreds.v / SemPredsParser.v cross-grammar cases",
+                       "error": str(e)[-2000:]}, found_input=False)
+
     # ---- the property itself on every observed outcome (spec-side oracle, independent of the model) ----
     prop_fail = []
     for kind, args, o in meta:
@@ -732,6 +822,10 @@ def run(run):
         else:
             unknown_fail.append({"pred": kind, "args": [j_arg(a) for a in args], "impl": j_out(o), "spec": False})
     run.cov["property_failures_in_known_classes"] = len(prop_fail) - len(unknown_fail)
+    for gi, kind, args, o, v in xmeta:      # cross-grammar stream: no known class applies (widths >= 0, no octal)
+        if v is False:
+            unknown_fail.append({"pred": kind, "grammar": XGRAMMARS[gi], "args": [j_arg(a) for a in args],
+                                 "impl": j_out(o), "spec": False, "stage": "cross-grammar"})
 
     # replay the witnesses of the open findings (KNOWN-FINDING only while the defect is present)
     for e in findings.values():
